@@ -197,6 +197,12 @@ func searchAll(r *hx.Run) {
 			lines = append(lines, "search "+fn+" "+k.name)
 		}
 	}
+	// defined types (narrowest and widest): a type switch over the predeclared types sends them down another path
+	for _, fn := range []string{"add", "sub", "mul", "div", "shl"} {
+		for _, kn := range []string{"du8", "di8", "du64", "di64"} {
+			lines = append(lines, "search "+fn+" "+kn)
+		}
+	}
 	lines = append(lines, "search mulu64 u64", "search muli64 i64", "search muldiv u64")
 	var wg sync.WaitGroup
 	sem := make(chan struct{}, 8)
